@@ -6,11 +6,10 @@ Import ListNotations.
 Open Scope Z_scope.
 
 (* the accepted domain: whole minutes, below 24 h, local time in years 1970..9999, not the
-   epoch itself (format_patch_date prints the epoch in UTC), and -- the defect of
-   parse_patch_date -- negative offsets only in whole hours *)
+   epoch itself (format_patch_date prints the epoch in UTC) *)
 Definition date_ok (secs offset : Z) : bool :=
   (Z.rem offset 60 =? 0) && negb (secs =? 0) && (0 <=? secs + offset) && (secs + offset <=? TS_MAX)
-  && (Z.abs offset <? 86400) && ((0 <=? offset) || (offset mod 3600 =? 0)).
+  && (Z.abs offset <? 86400).
 
 Lemma pad2_small z : 0 <= z < 100 -> pad2 z = d2 z.
 Proof. intros H. unfold pad2. destruct (z <? 100) eqn:E; [reflexivity|lia]. Qed.
@@ -40,9 +39,9 @@ Lemma date_roundtrip secs offset :
 Proof.
   unfold date_ok. intros H.
   repeat (apply andb_true_iff in H; destruct H as [H ?]).
-  apply Z.eqb_eq in H. apply negb_true_iff in H4. apply Z.eqb_neq in H4.
-  apply Z.leb_le in H3, H2. apply Z.ltb_lt in H1.
-  rename H0 into Hsign.
+  apply Z.eqb_eq in H. apply negb_true_iff in H3. apply Z.eqb_neq in H3.
+  apply Z.leb_le in H2, H1. apply Z.ltb_lt in H0.
+  rename H3 into H4.
   assert (Hoff_rem : offset mod 60 = 0) by (apply Z.rem_mod_eq_0; [lia|exact H]).
   unfold format_patch_date.
   replace (Z.rem offset 60 =? 0) with true by (symmetry; apply Z.eqb_eq; exact H).
@@ -85,29 +84,21 @@ Proof.
           clear - Hhours Hmin; lia).
     rewrite Z.abs_eq in Hsplit by lia. clearbody hours minutes.
     clear - Hts Hsum Hsplit. f_equal. f_equal; lia.
-  - apply Z.leb_gt in Epos. cbn [orb] in Hsign. apply Z.eqb_eq in Hsign.
+  - apply Z.leb_gt in Epos.
     replace (DASH =? PLUS)%N with false by reflexivity.
     replace (DASH =? DASH)%N with true by reflexivity. cbn [orb].
-    assert (Habs3600 : Z.abs offset mod 3600 = 0).
-    { rewrite Z.abs_neq by lia. apply mod_opp_0; [lia|exact Hsign]. }
-    destruct (offset_whole_hours (Z.abs offset) Habs Habs3600) as [Hm0 Hh0].
-    fold minutes in Hm0. fold hours in Hh0.
-    rewrite Z.abs_neq in Hh0 by lia. clearbody hours minutes.
     replace ((24 <=? Z.abs (- hours)) || (60 <=? minutes)) with false
       by (symmetry; apply orb_false_iff; split; [apply Z.leb_gt|apply Z.leb_gt];
           clear - Hhours Hmin; lia).
-    clear - Hts Hsum Hm0 Hh0. f_equal. f_equal; lia.
+    rewrite Z.abs_neq in Hsplit by lia. clearbody hours minutes.
+    clear - Hts Hsum Hsplit. f_equal. f_equal; lia.
 Qed.
 
-(* "-0330": the minutes are added, not subtracted *)
-Lemma date_negative_minutes_refuted :
-  exists secs offset s,
-    Z.rem offset 60 = 0 /\ format_patch_date secs offset = Some s /\
-    parse_patch_date s = Some (secs - 3600, offset + 3600).
-Proof.
-  exists 1000000, (-12600), (asc "1970-01-12 10:16:40 -0330").
-  split; [reflexivity|]. split; vm_compute; reflexivity.
-Qed.
+(* regression: "-0330" (the minutes used to be added instead of subtracted) *)
+Example date_negative_minutes :
+  format_patch_date 1000000 (-12600) = Some (asc "1970-01-12 10:16:40 -0330") /\
+  parse_patch_date (asc "1970-01-12 10:16:40 -0330") = Some (1000000, -12600).
+Proof. split; vm_compute; reflexivity. Qed.
 
-Example date_ok_example : date_ok 1700000000 19800 = true /\ date_ok 1700000000 (-18000) = true.
+Example date_ok_example : date_ok 1700000000 19800 = true /\ date_ok 1700000000 (-12600) = true.
 Proof. split; reflexivity. Qed.
